@@ -414,7 +414,11 @@ def session(ctx, calls, raises, events):
     cursor = [0]
     forwarded = []
 
+    after_disconnect = [0]
+
     async def receive():
+        if cursor[0] and served[cursor[0] - 1]["type"] == "websocket.disconnect":
+            after_disconnect[0] += 1  # the disconnect has been delivered: nothing more may be asked of the server
         if cursor[0] >= len(served):
             await Never()
         cursor[0] += 1
@@ -448,6 +452,8 @@ def session(ctx, calls, raises, events):
     kind, val = step(app({"type": "websocket", "headers": [], "path": "/", "query_string": b""}, receive, send))
     ctx.mon("websocket_session")
     case = {"shortcut": "websocket_session", "calls": list(calls), "view_raises": raises, "script": [e["type"] for e in events]}
+    if after_disconnect[0]:
+        ctx.violation("session|receive-issued-after-disconnect", case, f"{after_disconnect[0]} receive() calls after the disconnect was delivered")
     if kind == "blocked":
         return
     prob = automaton_problem(forwarded)
